@@ -119,26 +119,131 @@ Definition reachable_file (f : fs) (qn : path * node) : bool :=
   end.
 Definition sane_b (f : fs) : bool := forallb (reachable_file f) f.
 
+(* no name of the tree holds a NUL byte — the kernel cannot create one *)
+Definition nonul_b (f : fs) : bool := forallb (fun qn => negb (comps_nul (fst qn))) f.
+
+(* ---------- the write tool (rip-tools/src/builtins/write.rs run_write) on the same file system ----------
+   The `path` argument goes through the step list of builtins::resolve_path (Paths.interp codes; read from the
+   source by tools/gen/autocover.py: [1; 2; 3] = absolute guard, ParentDir guard, root.join); the auto checkpoint
+   gets the argument through the step list of runtime.rs files_for_invocation ([1; 2; 6]).  `arg_interp` is what
+   the steps leave of the ARGUMENT (the string that is joined to the root / handed to the checkpoint store). *)
+Fixpoint arg_interp (steps : list N) (x : str) : res str :=
+  match steps with
+  | [] => Ok x
+  | 1 :: r => if is_absolute x then Err V_ABS else arg_interp r x
+  | 2 :: r => if has_parent x then Err V_PARENT else arg_interp r x
+  | 3 :: _ => Ok x
+  | 4 :: r => arg_interp r (trim x)
+  | 5 :: r => match x with [] => Err V_EMPTY | _ => arg_interp r x end
+  | 6 :: _ => Ok x
+  | _ :: _ => Err V_OTHER
+  end.
+
+(* OpenOptions::new().create(c).append(true).open(p) + write_all *)
+Definition os_append (f : fs) (t : tgt) (create : bool) (data : bytes) : res fs :=
+  match pre_err f t with
+  | Some e => Err e
+  | None =>
+    match lookup f (t_path t) with
+    | Some Dir => Err EISDIR
+    | Some (File b) => match t_trail t with TNone => Ok (set f (t_path t) (File (b ++ data))) | _ => Err ENOTDIR end
+    | None =>
+      if create then match t_trail t with TNone => Ok (set f (t_path t) (File data)) | TSlash => Err EISDIR | TDot => Err ENOENT end
+      else Err ENOENT
+    end
+  end.
+
+Definition rm_ignore (f : fs) (t : tgt) : fs := match os_remove_file f t with Ok f' => f' | Err _ => f end.
+
+(* the temporary file of the atomic branch: `path.with_extension(<ext>)` (std's algorithm, Paths.with_extension);
+   for a file name `..x` std yields the directory above (`<dir>/..`): opening it for writing is EISDIR *)
+Definition tmp_tgt (x ext : str) : tgt := mk_tgt [] (with_extension x ext).
+Definition tmp_is_parent (x ext : str) : bool := has_parent (with_extension x ext).
+
+(* mode 0 atomic (the default), 1 plain (`atomic: false`), 2 append, 3 append with `create: false`;
+   result: the workspace after the call and the error of a failed call *)
+Definition write_tool (tsteps : list N) (f : fs) (raw ext : str) (mode : N) (data : bytes) : fs * option N :=
+  match arg_interp tsteps raw with
+  | Err e => (f, Some e)
+  | Ok x =>
+    match file_name raw with
+    | None => (f, Some V_NOFILE)
+    | Some _ =>
+      let t := mk_tgt [] x in
+      let '(f1, er) := mk_parent_dirs f t in
+      match er with
+      | Some e => (f1, Some e)
+      | None =>
+        if (mode =? 2) || (mode =? 3) then
+          match os_append f1 t (mode =? 2) data with Ok f2 => (f2, None) | Err e => (f1, Some e) end
+        else if mode =? 0 then
+          if tmp_is_parent x ext then (f1, Some EISDIR) else
+          let tt := tmp_tgt x ext in
+          match os_write f1 tt data with
+          | Err e => (f1, Some e)
+          | Ok f2 =>
+            if os_exists f2 t then
+              match os_remove_file f2 t with
+              | Err e => (rm_ignore f2 tt, Some e)
+              | Ok f3 => match os_rename_file f3 tt t with Ok f4 => (f4, None) | Err e => (rm_ignore f3 tt, Some e) end
+              end
+            else match os_rename_file f2 tt t with Ok f4 => (f4, None) | Err e => (rm_ignore f2 tt, Some e) end
+          end
+        else match os_write f1 t data with Ok f2 => (f2, None) | Err e => (f1, Some e) end
+      end
+    end
+  end.
+
+(* what ToolRunner::run does around the call: the auto checkpoint of the argument as files_for_invocation leaves it
+   (None: refused before the store / the checkpoint failed - the tool runs all the same), then the tool *)
+Definition auto_checkpoint (asteps : list N) (f : fs) (root raw : str) : option (list entry) :=
+  match arg_interp asteps raw with
+  | Err _ => None
+  | Ok a => match create f root [a] with Ok ck => Some ck | Err _ => None end
+  end.
+
+(* tie T1 (tools/gen/autocover.py -> Gen/AutoCover.v): the two step lists, how the temporary name is made
+   (1 = with_extension(format!("tmp-{}", Uuid::new_v4())): a name nobody else has; 2 = a fixed extension;
+   99 = anything else) and the (operation, derivation) program of run_write as tools/gen/resolvers.py reads it *)
+Definition expected_tool_steps : list N := [1; 2; 3].
+Definition expected_auto_steps : list N := [1; 2; 6].
+Definition expected_tmp_kind : N := 1.
+Definition expected_write_prog : list (N * N) :=
+  [(3, 12); (5, 1); (4, 13); (2, 1); (6, 1); (6, 13); (7, 13); (7, 1); (6, 13); (4, 1)].
+Definition cover_wf (found : bool) (tsteps asteps : list N) (tmp_kind : N) (prog : list (N * N)) : bool :=
+  found && list_eqb N.eqb tsteps expected_tool_steps && list_eqb N.eqb asteps expected_auto_steps
+  && (tmp_kind =? expected_tmp_kind) && list_eqb op_eqb prog expected_write_prog.
+
 (* ---------- correspondence (harness/src/bin/c14.rs) ---------- *)
 Inductive op :=
 | OCreate (raws : list str) (code : N) (recorded : list (str * bool))   (* observed result *)
 | ORewind (idx : N) (code : N)                                           (* idx-th successful create *)
-| OEdit (after : fs).                                                    (* the harness changed the workspace *)
+| OWrite (raw : str) (mode : N) (data : bytes) (code : N)                (* the write tool: 0 = exit code 0 *)
+| OEdit.                                                                 (* the harness / apply_patch changed the workspace *)
 
 Record case := {
   c_root : str;
   c_init : fs;
-  c_ops : list (op * fs)            (* operation, workspace listing observed after it (without .rip) *)
+  c_ops : list (op * option fs)     (* operation, workspace listing observed after it (without .rip); None = as before *)
 }.
 
 Definition entry_flags (ck : list entry) : list (str * bool) :=
   map (fun e => (fst e, match snd e with Some _ => true | None => false end)) ck.
 Definition flag_eqb (a b : str * bool) : bool := str_eqb (fst a) (fst b) && Bool.eqb (snd a) (snd b).
 
-Fixpoint run_ops (root : str) (f : fs) (cks : list (list entry)) (ops : list (op * fs)) : bool :=
+(* the extension the model hands to write_tool: like the real one it must not name an existing file *)
+Definition corr_ext : str := [116; 109; 112; 45; 85; 85; 73; 68].       (* "tmp-UUID" *)
+Definition tmp_fresh (f : fs) (steps : list N) (raw ext : str) : bool :=
+  match arg_interp steps raw, file_name raw with
+  | Ok x, Some _ => match lookup f (t_path (tmp_tgt x ext)) with None => true | Some _ => false end
+  | _, _ => true
+  end.
+
+Fixpoint run_ops (root : str) (f : fs) (cks : list (list entry)) (ops : list (op * option fs)) : bool :=
   match ops with
   | [] => true
-  | (o, after) :: r =>
+  | (o, obs) :: r =>
+    let after := match obs with Some a => a | None => f end in
     match o with
     | OCreate raws code recorded =>
       match create f root raws with
@@ -153,15 +258,48 @@ Fixpoint run_ops (root : str) (f : fs) (cks : list (list entry)) (ops : list (op
         let '(f1, er) := rewind f ck in
         (code =? match er with None => 0 | Some _ => 1 end) && same_listing f1 after && run_ops root after cks r
       end
-    | OEdit after' => run_ops root after cks r
+    | OWrite raw mode data code =>
+      let '(f1, er) := write_tool expected_tool_steps f raw corr_ext mode data in
+      tmp_fresh f expected_tool_steps raw corr_ext
+      && (code =? match er with None => 0 | Some _ => 1 end) && same_listing f1 after && sane_b after
+      && run_ops root after cks r
+    | OEdit => run_ops root after cks r
     end
   end.
 
 Definition check_case (c : case) : bool := sane_b (c_init c) && run_ops (c_root c) (c_init c) [] (c_ops c).
 
-Definition model_obs (c : case) : list N :=
-  match c_ops c with
-  | (OCreate raws _ _, _) :: _ =>
-    match create (c_init c) (c_root c) raws with Ok ck => 0 :: nlen ck :: concat (map fst ck) | Err e => [e] end
-  | _ => []
+(* diagnosis shown on a disagreement: [number of the first operation (from 1) the model does not reproduce
+   (0 = the initial workspace is not sane); what failed there: 1 result code, 2 recorded entries, 3 listing,
+   4 unknown checkpoint index, 5 the temporary name is taken, 6 observed workspace not sane] *)
+Fixpoint diag_ops (root : str) (f : fs) (cks : list (list entry)) (ops : list (op * option fs)) (i : N) : list N :=
+  match ops with
+  | [] => []
+  | (o, obs) :: r =>
+    let after := match obs with Some a => a | None => f end in
+    match o with
+    | OCreate raws code recorded =>
+      match create f root raws with
+      | Ok ck => if negb (code =? 0) then [i; 1] else if negb (list_eqb flag_eqb (entry_flags ck) recorded) then [i; 2]
+                 else if negb (same_listing f after) then [i; 3] else diag_ops root after (cks ++ [ck]) r (i + 1)
+      | Err e => if negb (code =? e) then [i; 1; e] else if negb (same_listing f after) then [i; 3] else diag_ops root after cks r (i + 1)
+      end
+    | ORewind idx code =>
+      match nth_error cks (N.to_nat idx) with
+      | None => [i; 4]
+      | Some ck =>
+        let '(f1, er) := rewind f ck in
+        if negb (code =? match er with None => 0 | Some _ => 1 end) then [i; 1; match er with None => 0 | Some e => e end]
+        else if negb (same_listing f1 after) then [i; 3] else diag_ops root after cks r (i + 1)
+      end
+    | OWrite raw mode data code =>
+      let '(f1, er) := write_tool expected_tool_steps f raw corr_ext mode data in
+      if negb (tmp_fresh f expected_tool_steps raw corr_ext) then [i; 5]
+      else if negb (code =? match er with None => 0 | Some _ => 1 end) then [i; 1; match er with None => 0 | Some e => e end]
+      else if negb (same_listing f1 after) then [i; 3] else if negb (sane_b after) then [i; 6]
+      else diag_ops root after cks r (i + 1)
+    | OEdit => diag_ops root after cks r (i + 1)
+    end
   end.
+Definition model_obs (c : case) : list N :=
+  if sane_b (c_init c) then diag_ops (c_root c) (c_init c) [] (c_ops c) 1 else [0].
